@@ -314,6 +314,9 @@ func (w *World) Decl(line string) {
 
 // StrLit returns a constant standing for a string literal (as a byte sequence).
 func (w *World) StrLit(s string) string {
+	if s == "" {
+		return sEmpty(SSeqI)
+	}
 	if c, ok := w.strLits[s]; ok {
 		return c
 	}
